@@ -147,6 +147,19 @@ theorem processSample_neg {law : Law} (ho : OddLaw law) (load : Vec) (fuel : Nat
     · rw [primary_neg ho]
 
 
+theorem vzip_vneg2 (f g : Int → Int → Int) (hf : ∀ a b, f (-a) (-b) = - g a b) (a : Vec) :
+    ∀ b : Vec, vzip f (vneg a) (vneg b) = vneg (vzip g a b) := by
+  induction a with
+  | nil => intro b; simp [vzip, vneg]
+  | cons x a ih =>
+    intro b
+    cases b with
+    | nil => simp [vzip, vneg]
+    | cons y b =>
+      have := ih b
+      simp only [vzip, vneg, List.map_cons, List.zipWith_cons_cons] at this ⊢
+      rw [this, hf]
+
 theorem updateLF_neg (st : State) (a b : Int) (p : HPoint) (hne : a ≠ b) :
     updateLF (negSt st) (-a) (-b) (negP p) = negSt (updateLF st a b p) := by
   unfold updateLF
@@ -155,12 +168,12 @@ theorem updateLF_neg (st : State) (a b : Int) (p : HPoint) (hne : a ≠ b) :
     rw [if_pos h, if_neg h']
     simp only [negSt, negP]
     congr 1
-    exact pick_lt _ _ _ _
+    exact vzip_vneg2 min max (fun a b => by omega) _ _
   · have h' : -a < -b := by omega
     rw [if_neg h, if_pos h']
     simp only [negSt, negP]
     congr 1
-    exact pick_lt _ _ _ _
+    exact vzip_vneg2 max min (fun a b => by omega) _ _
 
 theorem turnStep_neg {law : Law} (ho : OddLaw law) (st : State) (prev : Int) (load : Vec)
     (hne : prev ≠ rep load) :
